@@ -131,6 +131,11 @@ func (p *parser) parseIPv4Number(u *Url, input string) (number int64, validation
 		validationError = true
 		return
 	}
+	// strconv.ParseInt accepts a leading sign; an IPv4 number consists of digits only.
+	if input[0] == '+' || input[0] == '-' {
+		err = strconv.ErrSyntax
+		return
+	}
 	number, err = strconv.ParseInt(input, R, 64)
 	return
 }
